@@ -157,13 +157,14 @@ func (l *vcLogBuf) bad() []string {
 // ---------------------------------------------------------------- scenario format
 
 type vcScenario struct {
-	Name   string              `json:"name"`
-	Caps   [][][2]int          `json:"caps"`   // capture k = packets [flow, nbytes]
-	Script [][]json.RawMessage `json:"script"` // [op, arg]
-	Tags   []string            `json:"tags"`   // definitions used by successive tagadd actions
-	Probe  int                 `json:"probe"`  // Stream(id) probed for id in [0,probe)
-	Bad    []int               `json:"bad"`    // captures written as unreadable files (readPackets fails)
-	Conv   bool                `json:"conv"`   // install a converter executable "cv" before the manager starts
+	Name    string              `json:"name"`
+	Caps    [][][2]int          `json:"caps"`    // capture k = packets [flow, nbytes]
+	Script  [][]json.RawMessage `json:"script"`  // [op, arg]
+	Tags    []string            `json:"tags"`    // definitions used by successive tagadd actions
+	Probe   int                 `json:"probe"`   // Stream(id) probed for id in [0,probe)
+	Bad     []int               `json:"bad"`     // captures written as unreadable files (readPackets fails)
+	Conv    bool                `json:"conv"`    // install a converter executable "cv" before the manager starts
+	Restart bool                `json:"restart"` // at the end: Close, plant an unloadable index file, manager.New on the same directories
 }
 
 type vcFileEntry [3]uint64 // id, flow (client port - 1000), version (client bytes)
@@ -833,26 +834,38 @@ func (r *vcRun) scenario(w *bufio.Writer) {
 	}
 	vcCtl.setFrozen(false)
 	vcCtl.setFree(false)
-	mgr, err := New(ds["pcap"], ds["index"], ds["snapshot"], ds["state"], ds["converter"], "")
-	if err != nil {
-		r.t.Fatal(err)
-	}
-	r.mgr = mgr
-	evc, _ := mgr.Listen()
-	evDone := make(chan struct{})
-	go func() {
-		defer close(evDone)
-		for e := range evc {
-			if e.Type == "pcapProcessed" {
-				r.evMu.Lock()
-				r.events++
-				if e.PcapStats != nil {
-					r.evPcaps = e.PcapStats.PcapCount
-				}
-				r.evMu.Unlock()
-			}
+	startManager := func() {
+		mgr, err := New(ds["pcap"], ds["index"], ds["snapshot"], ds["state"], ds["converter"], "")
+		if err != nil {
+			panic(fmt.Sprintf("manager.New: %v", err))
 		}
-	}()
+		r.mgr = mgr
+		evc, _ := mgr.Listen()
+		go func() {
+			for e := range evc {
+				if e.Type == "pcapProcessed" {
+					r.evMu.Lock()
+					r.events++
+					if e.PcapStats != nil {
+						r.evPcaps = e.PcapStats.PcapCount
+					}
+					r.evMu.Unlock()
+				}
+			}
+		}()
+	}
+	closeManager := func() {
+		c := make(chan struct{})
+		// (calling the listener's closer AND Close can close the listener's channel twice when an event delivery is
+		// still in flight -- manager.go Close/Listen -- so only Close is used here)
+		m := r.mgr
+		go func() { m.Close(); close(c) }()
+		select {
+		case <-c:
+		case <-time.After(10 * time.Second):
+		}
+	}
+	startManager()
 	aborted := false
 	finish := func() {
 		// let everything run to completion without gates, then close the manager
@@ -872,14 +885,7 @@ func (r *vcRun) scenario(w *bufio.Writer) {
 			vcCtl.setFrozen(true)
 			defer func() { time.Sleep(50 * time.Millisecond) }()
 		}
-		c := make(chan struct{})
-		// (calling the listener's closer AND Close can close the listener's channel twice when an event delivery is
-		// still in flight -- manager.go Close/Listen -- so only Close is used here)
-		go func() { mgr.Close(); close(c) }()
-		select {
-		case <-c:
-		case <-time.After(10 * time.Second):
-		}
+		closeManager()
 	}
 	defer finish()
 	func() {
@@ -907,32 +913,70 @@ func (r *vcRun) scenario(w *bufio.Writer) {
 				return
 			}
 		}
-		// drain: run every parked job to completion (bounded)
-		for i := 0; i < 80; i++ {
-			parked := vcCtl.snapshot()
-			var act []interface{}
-			for _, k := range vcKinds {
-				if ph, ok := parked[k]; ok {
-					act = r.stepJob(k, ph)
+		// drain: run every parked job to completion (bounded), then release the views one by one
+		drain := func() bool {
+			for i := 0; i < 80; i++ {
+				parked := vcCtl.snapshot()
+				var act []interface{}
+				for _, k := range vcKinds {
+					if ph, ok := parked[k]; ok {
+						act = r.stepJob(k, ph)
+						break
+					}
+				}
+				if act == nil {
 					break
 				}
+				s := r.observe(act)
+				emit(s)
+				if s.Fatal != "" {
+					aborted = true
+					return false
+				}
 			}
-			if act == nil {
-				break
+			for _, vv := range r.views {
+				if vv.open {
+					vv.v.Release()
+					vv.open = false
+					emit(r.observe([]interface{}{"release", vv.id}))
+				}
 			}
-			s := r.observe(act)
+			return true
+		}
+		if !drain() {
+			return
+		}
+		if r.sc.Restart && len(vcCtl.snapshot()) == 0 {
+			// restart on the same directories, with one index file that index.NewReader cannot load
+			closeManager()
+			junk := "2000-01-01_000000.000.0.idx"
+			if err := os.WriteFile(filepath.Join(r.idxDir, junk), []byte("not an index file"), 0644); err != nil {
+				panic(err)
+			}
+			r.tagLive, r.jobTag = false, ""
+			startManager()
+			s := r.observe([]interface{}{"restart", junk})
 			emit(s)
 			if s.Fatal != "" {
 				aborted = true
 				return
 			}
-		}
-		// release the views one by one
-		for _, vv := range r.views {
-			if vv.open {
-				vv.v.Release()
-				vv.open = false
-				emit(r.observe([]interface{}{"release", vv.id}))
+			for _, op := range []string{`["view"]`, `["import",1]`, `["step",0]`, `["view"]`} {
+				var raw []json.RawMessage
+				if err := json.Unmarshal([]byte(op), &raw); err != nil {
+					panic(err)
+				}
+				if act := r.apply(raw); act != nil {
+					s := r.observe(act)
+					emit(s)
+					if s.Fatal != "" {
+						aborted = true
+						return
+					}
+				}
+			}
+			if !drain() {
+				return
 			}
 		}
 		s = r.observe([]interface{}{"end"})
